@@ -95,3 +95,108 @@ func sigmaClass(s float64) string {
 	}
 	return "sigma>1e5"
 }
+
+// ---- positions far from the origin ----------------------------------------------------------
+//
+// "for every shape parameter (positions, …)": a shape moved by t and sampled at p + t has the value
+// of the unmoved shape at p.  With t = 2^k · d (d a small integer vector) every moved centre and
+// every moved lattice point is exactly representable (quarter-step coordinates, k ≤ 40), so nothing
+// is lost in handing the inputs over; a formula that subtracts the position from the sample first —
+// is then exact, whereas one that goes through absolute quantities loses some ulp(|t|).  The pinned
+// capsule does (its closest point is formed in absolute coordinates: 0.4 ulp(|t|) off), and the
+// statement grants floating-point tolerance, so the bound is the unit-scale tolerance plus four ulps
+// of the largest offset component: it catches formulas that lose more than rounding (squared
+// absolute coordinates, a far-field shortcut keyed on |p|, a clamp), not a reordering that stays
+// within a few ulps of the coordinates.
+
+var farOffsets = []P3{{1, 1, 1}, {-1, 2, -3}, {0, 0, 1}, {2, -1, 0}}
+var farPowers = []int{20, 30, 40}
+
+const clFar = "moving the shape and the sample point by the same offset does not change the value (positions are shape parameters: for every position)"
+
+// moved adds t to every position parameter of the shape.
+func (s Shape) moved(t P3) Shape {
+	p := append([]float64{}, s.P...)
+	add := func(i int) {
+		p[i] += t[0]
+		p[i+1] += t[1]
+		p[i+2] += t[2]
+	}
+	switch s.K {
+	case kLine, kCone:
+		add(0)
+		add(3)
+	default:
+		add(0)
+	}
+	return Shape{K: s.K, P: p}
+}
+
+func exactQuarter(x float64) bool { return x*4 == math.Trunc(x*4) }
+
+func (k checker) farAway(s Shape, L *lattice) {
+	if rep, _ := s.reportedOnly(); rep {
+		return
+	}
+	// only shapes and lattices on the quarter-step grid stay exactly representable after the move
+	for _, i := range positionIndices(s) {
+		if !exactQuarter(s.P[i]) {
+			return
+		}
+	}
+	for _, v := range L.vals {
+		if !exactQuarter(v) {
+			return
+		}
+	}
+	base, o := evalField(s.build(), L)
+	if o.Panicked {
+		return
+	}
+	tol0 := 1e-9 * s.scale(L.max)
+	scope := s.K + "/far-from-origin"
+	for _, kp := range farPowers {
+		for di, d := range farOffsets {
+			if (kp/10+di)%2 == 1 && s.K != kPlane {
+				continue // half of the (power, direction) pairs per shape; all of them for the plane
+			}
+			t := mul(d, math.Ldexp(1, kp))
+			tmax := math.Max(math.Abs(t[0]), math.Max(math.Abs(t[1]), math.Abs(t[2])))
+			tol := tol0 + 4*(math.Nextafter(tmax, math.Inf(1))-tmax)
+			mv := s.moved(t)
+			cs := Case{Kind: "far", Shape: &s, Lat: L.vals, T: []float64{t[0], t[1], t[2]}}
+			f := mv.build()
+			bad := -1
+			var got float64
+			o := core.Guard(func() {
+				for i := 0; i < L.n; i++ {
+					g := f(vector3.New(L.X[i]+t[0], L.Y[i]+t[1], L.Z[i]+t[2]))
+					if !(math.Abs(g-base[i]) <= tol) {
+						bad, got = i, g
+						return
+					}
+				}
+			})
+			class := fmt.Sprintf("%s/offset=2^%d", s.class(), kp)
+			switch {
+			case o.Panicked:
+				k.evalN(scope, "crash", 1)
+				k.c.Violate(core.Violation{Site: site(s.K), Clause: clFar, Class: class + "/crash", Detail: fmt.Sprintf("%s%v moved by %v: %s", s.K, s.P, t, o.Msg), Case: cs})
+			case bad >= 0:
+				k.evalN(scope, "mismatch", int64(L.n))
+				k.c.Violate(core.Violation{Site: site(s.K), Clause: clFar, Class: class,
+					Detail: fmt.Sprintf("%s%v: f(p)=%v at p=%v, but the shape moved by %v gives %v at p+t", s.K, s.P, base[bad], L.at(bad), t, got), Case: cs})
+			default:
+				k.evalN(scope, "ok", int64(L.n))
+			}
+		}
+	}
+}
+
+func positionIndices(s Shape) []int {
+	switch s.K {
+	case kLine, kCone:
+		return []int{0, 1, 2, 3, 4, 5}
+	}
+	return []int{0, 1, 2}
+}
